@@ -3,4 +3,4 @@
 set -e
 cd "$(dirname "$0")"
 (cd lean/TB && lake build)
-(cd harness && RUSTFLAGS="--cfg lbfs_torrent_bootstrap_verif" CARGO_NET_OFFLINE=true cargo build --profile verif)
+(cd harness && RUSTFLAGS="--cfg lbfs_torrent_bootstrap_verif" CARGO_NET_OFFLINE=true CARGO_TARGET_DIR="$PWD/../.cache/harness-target" cargo build --profile verif)
